@@ -98,3 +98,55 @@ func oracleC17Memberships(memberSel [][]int, noMembership bool) {
 		vAssert(seen[key{osm.TypeRelation, int64(10 + r)}])
 	}
 }
+
+// C17: "a point for every located node that is not part of a way, or has an
+// interesting tag, or is a relation member". A node that is part of a way is
+// emitted exactly when one of its tags is interesting, whatever the order of
+// its tags (uninteresting keys: osm.UninterestingTags).
+//
+//@ func oracleC17NodeEmission
+//@   props C17
+//@   oracle
+//@   covers hasInterestingTags
+func oracleC17NodeEmission(tagSel []int) {
+	keys := []string{"source", "created_by", "note", "amenity", "name", "highway", "fixme", "odbl"}
+	vAssume(len(tagSel) <= 6)
+	var tags osm.Tags
+	used := map[string]bool{}
+	interesting := false
+	for _, s := range tagSel {
+		k := keys[c17Abs(s)%len(keys)]
+		if used[k] {
+			continue
+		}
+		used[k] = true
+		tags = append(tags, osm.Tag{Key: k, Value: "v"})
+		if !osm.UninterestingTags[k] {
+			interesting = true
+		}
+	}
+	o := &osm.OSM{
+		Nodes: osm.Nodes{
+			{ID: 1, Lat: 1, Lon: 1, Version: 1, Tags: tags},
+			{ID: 2, Lat: 2, Lon: 2, Version: 1},
+		},
+		Ways: osm.Ways{{ID: 1, Version: 1, Nodes: osm.WayNodes{{ID: 1}, {ID: 2}}, Tags: osm.Tags{{Key: "highway", Value: "path"}}}},
+	}
+	fc, err := Convert(o)
+	vAssert(err == nil && fc != nil)
+	if fc == nil {
+		return
+	}
+	points := 0
+	for _, f := range fc.Features {
+		if f.Properties["type"] == "node" {
+			points++
+			vAssert(f.Properties["id"] == 1 || f.Properties["id"] == int64(1) || f.Properties["id"] == osm.NodeID(1))
+		}
+	}
+	if interesting {
+		vAssert(points == 1)
+	} else {
+		vAssert(points == 0)
+	}
+}
